@@ -1,0 +1,13 @@
+//go:build verif
+
+package address
+
+import lru "github.com/hashicorp/golang-lru"
+
+// VerifResetCaches drops the package-level caches (verification hook: lets a harness compare the
+// answer of a query inside a history with its history-free answer in the same process).
+func VerifResetCaches() {
+	execAddrCache, _ = lru.New(10240)
+	checkAddressCache, _ = lru.New(10240)
+	execPubKeyCache, _ = lru.New(10240)
+}
